@@ -207,18 +207,73 @@ def separates_rules(rep, prog):
     rets = S.select("return", qname=q)
     f_rets = [r for r in rets if is_const(r.value, False)]
     t_rets = [r for r in rets if is_const(r.value, True)]
-    ok = len(f_rets) >= 1 and len(t_rets) == 1 and len(rets) == len(f_rets) + 1
-    if ok and calls:
-        path_elem = ("elem", calls[0].result)
-        for r in f_rets:
-            last = r.path[-1] if r.path else None
-            p = npred(last[0], last[1]) if last else None
-            good = p in (("empty", ("binop", "&", ("ext", "set", (path_elem,), ()), ("param", "S"))),
-                         ("empty", ("binop", "&", ("param", "S"), ("ext", "set", (path_elem,), ()))))
-            ok = ok and good
-        ok = ok and not any(c for c, pol in t_rets[0].path if mentions(c, path_elem))
-    rep.check("SEP.outcome", ok, fwhere(f), "False exactly when some path has no node in S, True after all paths were inspected",
-              "outcome is not `False iff some path avoids S`")
+    shape = len(f_rets) >= 1 and len(t_rets) == 1 and len(rets) == len(f_rets) + 1
+    if not shape or not calls:
+        rep.bad("SEP.outcome", fwhere(f), "outcome is not `False as soon as some path avoids S, True after all paths were inspected`")
+        return
+    path_elem = ("elem", calls[0].result)
+    PS_ = ("param", "S")
+    verdict = "ok"
+    for r in f_rets:
+        last = r.path[-1] if r.path else None
+        p = npred(last[0], last[1]) if last else None
+        inter = [("binop", "&", ("ext", "set", (path_elem,), ()), PS_), ("binop", "&", PS_, ("ext", "set", (path_elem,), ()))]
+        good = p in [("empty", t) for t in inter] or p in [("atom", ("method", ("ext", "set", (path_elem,), ()), "isdisjoint", (PS_,), ()), True),
+                                                             ("atom", ("method", PS_, "isdisjoint", (path_elem,), ()), True)]
+        if not good and last is not None:
+            # `not any(s in path for s in S)` / `all(s not in path for s in S)`
+            c, pol = last
+            neg = False
+            while c[0] == "unop" and c[1] == "not":
+                c, neg = c[2], not neg
+            if c[0] == "ext" and c[1] in ("any", "all") and len(c[2]) == 1 and c[2][0][0] == "comp" and not c[2][0][3][0][2]:
+                comp = c[2][0]
+                it = comp[3][0][1]
+                e = ("elem", it)
+                member = {PS_: ("cmp", "in", e, path_elem), path_elem: ("cmp", "in", e, PS_)}.get(it)
+                notmember = {PS_: ("cmp", "not in", e, path_elem), path_elem: ("cmp", "not in", e, PS_)}.get(it)
+                truth = pol != neg
+                if c[1] == "any" and comp[2] == member and truth is False:
+                    good = True
+                if c[1] == "all" and comp[2] == notmember and truth is True:
+                    good = True
+        if not good and p in [("nonempty", t) for t in inter]:
+            verdict = "bad"           # the exact negation of the definition
+        elif not good:
+            dep = last is not None and mentions(last[0], PS_) and mentions(last[0], path_elem)
+            verdict = "unknown" if dep and verdict != "bad" else "bad"
+    if any(c for c, pol in t_rets[0].path if mentions(c, path_elem)):
+        verdict = "bad"
+    if verdict == "ok":
+        rep.ok("SEP.outcome", fwhere(f), "False exactly when some path has no node in S, True after all paths were inspected")
+    elif verdict == "bad":
+        rep.bad("SEP.outcome", fwhere(f), "the `path avoids S` test does not depend on both the path and S, or True is returned before all paths were inspected")
+    else:
+        rep.unk("SEP.outcome", fwhere(f), "the `path avoids S` test is written in a form the rule does not recognise: %s" % fmt(f_rets[0].path[-1][0])[:120])
+
+
+def truthy_node_rule(rep, prog):
+    """any(...) / all(...) over the *labels* of nodes (elements of a node set or of a path) instead of over
+    booleans: node 0 is falsy, so the answer depends on how the nodes are numbered."""
+    NODESETS = {"S", "A", "B", "I", "path", "visited", "to_visit"}
+    n = 0
+    for f in sorted(prog.funcs.values(), key=lambda f: f.qname):
+        if f.module.name != "sempler.utils":
+            continue
+        for node in ast.walk(f.node):
+            if isinstance(node, ast.Call) and isinstance(node.func, ast.Name) and node.func.id in ("any", "all") and len(node.args) == 1 and \
+                    isinstance(node.args[0], (ast.GeneratorExp, ast.ListComp, ast.SetComp)):
+                comp = node.args[0]
+                n += 1
+                tgt = comp.generators[0].target
+                if isinstance(comp.elt, ast.Name) and isinstance(tgt, ast.Name) and comp.elt.id == tgt.id:
+                    it = comp.generators[0].iter
+                    src = it.id if isinstance(it, ast.Name) else None
+                    holds_nodes = src in NODESETS or (isinstance(it, ast.Call) and isinstance(it.func, ast.Name) and it.func.id in ("pa", "ch", "neighbors", "adj", "na"))
+                    if holds_nodes:
+                        rep.bad("TRUTHY.node-label", fwhere(f, node), "%s() over node labels `%s`: node 0 is falsy, so the result depends on the numbering of the nodes" % (node.func.id, norm(comp)[:60]))
+    rep.ok("TRUTHY.node-label", {"file": "sempler/utils.py", "line": 0, "function": "sempler.utils.*", "construct": "any()/all() over comprehensions"},
+           "%d any()/all() calls over comprehensions inspected; none takes the truth value of a node label" % n) if not rep.count("TRUTHY.node-label", "VIOLATION") else None
 
 
 def chain_component_rules(rep, prog):
@@ -275,6 +330,7 @@ def run(prog, rep, tier):
     closure_rules(rep, prog)
     paths_rules(rep, prog)
     separates_rules(rep, prog)
+    truthy_node_rule(rep, prog)
     chain_component_rules(rep, prog)
     # zero-pattern dependence of the whole family (the DAG gate's own value sensitivity belongs to C03)
     entries = [(U + n, {"na": "A", "separates": "G", "chain_component": "G"}.get(n, "A")) for n in
